@@ -242,7 +242,7 @@ def run_shard(shard, tier, seed):
         st = run_explore(rep, f"send n={n}", send_scenario(msg, cutset), 3, {"delivered"}, {"op": "send", "n": n, "cls": "partial", "mode": "send", "seed": seed})
         # faults: zero return / error at the k-th OS send call, after 0..2 partial sends
         for k in range(0, 4):
-            for f in ("send_zero", "send_err", "send_partial", "send_timeout"):
+            for f in ("send_zero", "send_zero_forever", "send_err", "send_partial", "send_timeout"):
                 sc = send_scenario(msg, cutset, fault={k: f})
                 exp = {"CommError"} | ({"delivered"} if True else set())
                 run_explore(rep, f"send n={n} {f}@{k}", sc, 2, exp, {"op": "send-fault", "n": n, "cls": f, "mode": "sendfault", "fault": f, "k": k, "seed": seed})
